@@ -15,7 +15,7 @@
                                     A = attribute step, I = string item step, N = integer item
                                     step (<name> is then a decimal number)            -> result class
      gen <sandboxed> <async> <prefix-term>   -> show (gen m e) | calls=<n> gates=<n> no_raw=<b> gated=<b>
-     gate <unsafe_callable 0|1> <alters_data 0|1> <policy default|0|1>
+     gate <unsafe_callable 0|1> <alters_data 0|1> <bound str.format 0|1> <policy default|0|1>
                                     SandboxedEnvironment.call on such a callable under the default
                                     or an overridden is_safe_callable     -> events | outcome
         term: N x | C hex | GA t a | GI t t | SL t o o o | CALL t n t.. k (a t).. o o
@@ -141,11 +141,11 @@ let () =
       let t = X.gen m e in
       print_endline (ostr (X.show t) ^ " | calls=" ^ string_of_int (int_of_nat (X.count_calls e)) ^ " gates="
                      ^ string_of_int (int_of_nat (X.count_gates t)) ^ " no_raw=" ^ b (X.no_raw t) ^ " gated=" ^ b (X.gated t))
-    | ["gate"; u; a; pol] ->
-      let c = { X.c_id = X.O; c_unsafe = (u = "1"); c_alters = (a = "1") } in
+    | ["gate"; u; a; fm; pol] ->
+      let c = { X.c_id = X.O; c_unsafe = (u = "1"); c_alters = (a = "1"); c_format = (fm = "1") } in
       let verdict = (match pol with "default" -> X.is_safe_callable_default c | "1" -> true | _ -> false) in
       let (log, o) = X.gate_events verdict c in
-      let ev = function X.EvCheck (_, v) -> "check:" ^ b v | X.EvInvoke _ -> "invoke" in
+      let ev = function X.EvCheck (_, v) -> "check:" ^ b v | X.EvInvoke _ -> "invoke" | X.EvFormat _ -> "format" in
       print_endline (String.concat " " (List.map ev log) ^ " | " ^
                      (match o with X.OVal _ -> "value" | X.OSecurityError -> "SecurityError" | X.OOtherError -> "error"))
     | _ -> failwith ("bad line " ^ line)
